@@ -79,6 +79,7 @@ var callersVia = map[string][]string{
 	"(*nsqd.protocolV2).SUB":                    {"(*nsqd.protocolV2).Exec"},
 	"(*nsqd.protocolV2).TOUCH":                  {"(*nsqd.protocolV2).Exec"},
 	"(*nsqd.protocolV2).messagePump":            {"(*nsqd.protocolV2).IOLoop"},
+	"(*nsqd.protocolV2).Send":                   {"(*nsqd.protocolV2).IOLoop", "(*nsqd.protocolV2).SendMessage", "(*nsqd.protocolV2).messagePump"},
 	"(*nsqd.tcpServer).Close":                   {"(*nsqd.tcpServer).Close"},
 	"(*nsqd.tcpServer).Handle":                  {"internal/protocol.TCPServer"},
 	"(*nsqlookupd.LookupProtocolV1).IDENTIFY":   {"(*nsqlookupd.LookupProtocolV1).Exec"},
@@ -184,6 +185,10 @@ var callersTable = []callersRow{
 		"a registration is removed by the delete endpoints and by the last producer of an ephemeral one"},
 	{"nsqlookupd", "(*Producer).Tombstone", []string{"C14"}, []string{"(*nsqlookupd.httpServer).doTombstoneTopicProducer"},
 		"a producer is tombstoned by the tombstone endpoint"},
+	{"internal/protocol", "SendFramedResponse", []string{"C07", "C09"}, []string{"(*nsqd.protocolV2).Send", "(*nsqd.tcpServer).Handle"},
+		"every frame goes out through Send, which takes the write lock and flushes everything but messages; a frame written anywhere else sits in the buffer until something else flushes it"},
+	{"nsqd", "(*NSQD).Main", []string{"C05", "C06", "C16"}, []string{"(*apps/nsqd.program).Start"},
+		"the daemon starts to serve after the metadata was loaded and persisted"},
 	{"apps/nsq_to_file", "(*FileLogger).Close", []string{"C19"}, []string{"(*apps/nsq_to_file.FileLogger).router", "(*apps/nsq_to_file.FileLogger).updateFile"},
 		"the output file is closed by rotation and at the end of the router"},
 	{"apps/nsq_to_file", "(*FileLogger).updateFile", []string{"C19"}, []string{"(*apps/nsq_to_file.FileLogger).router"},
@@ -292,7 +297,27 @@ func ownersOf(c *an.Ctx, fn *ssa.Function, depth int) []string {
 		})
 	}
 	if len(out) == 0 {
-		return []string{an.FnName(root)}
+		// a method nothing in the repository calls by name may still be reached through an interface the outside world
+		// holds (a go-nsq Handler): whoever boxes the receiver owns it
+		if recv := root.Signature.Recv(); recv != nil {
+			for _, g := range c.P.RepoFuncs() {
+				if g == root {
+					continue
+				}
+				an.Instrs(g, func(in ssa.Instruction) {
+					if mi, ok := in.(*ssa.MakeInterface); ok && types.Identical(mi.X.Type(), recv.Type()) {
+						out = append(out, ownersOf(c, g, depth+1)...)
+					}
+				})
+			}
+		}
+	}
+	if len(out) == 0 {
+		if depth == 0 && root.Pkg != nil && (root.Name() == "main" || root.Name() == "init" || strings.HasPrefix(root.Name(), "init#")) {
+			return []string{an.FnName(root)}
+		}
+		// nothing refers to it: the copy the normaliser left behind after inlining, or dead code – it has no effect to own
+		return nil
 	}
 	sort.Strings(out)
 	return out
@@ -315,7 +340,7 @@ func baselineHas(fn *ssa.Function) bool {
 			key += nt.Obj().Name() + "."
 		}
 	}
-	return an.Baseline[key+fn.Name()]
+	return an.InBaseline(key + fn.Name())
 }
 
 // funcExists: name is an.FnName of a function of the current tree.
